@@ -68,9 +68,38 @@ Proof.
   rewrite sep_h_value. pose proof (dot_uvec_range (d2r A1) (d2r D1) (d2r A2) (d2r D2)). lra.
 Qed.
 
+(* 1 - h as the code computes it *)
+Definition sep_hc (dd d1 d2 da : R) : R :=
+  cos (dd / Rlit 20 (-1)) * cos (da / Rlit 20 (-1)) * (cos (dd / Rlit 20 (-1)) * cos (da / Rlit 20 (-1)))
+  + sin ((d1 + d2) / Rlit 20 (-1)) * sin (da / Rlit 20 (-1))
+    * (sin ((d1 + d2) / Rlit 20 (-1)) * sin (da / Rlit 20 (-1))).
+
+Lemma cos2_half x : cos (x / 2) * cos (x / 2) = (1 + cos x) / 2.
+Proof. replace x with (2 * (x / 2)) at 3 by field. rewrite cos_2a_cos. field. Qed.
+Lemma sin2_half x : sin (x / 2) * sin (x / 2) = (1 - cos x) / 2.
+Proof. apply hav_cos. Qed.
+
+(* hc = 1 - h *)
+Lemma sep_hc_value A1 D1 A2 D2 :
+  sep_hc (d2r (red360 (D1 + - D2))) (d2r D1) (d2r D2) (d2r (red360 (A1 + - A2)))
+  = 1 - sep_h (d2r (red360 (D1 + - D2))) (d2r D1) (d2r D2) (d2r (red360 (A1 + - A2))).
+Proof.
+  rewrite sep_h_hav, !hav_cos. unfold sep_hc.
+  replace (Rlit 20 (-1)) with 2 by (Rlit_norm; lra).
+  set (dd := d2r (red360 (D1 + - D2))). set (da := d2r (red360 (A1 + - A2))).
+  replace (cos (dd / 2) * cos (da / 2) * (cos (dd / 2) * cos (da / 2)))
+    with ((cos (dd / 2) * cos (dd / 2)) * (cos (da / 2) * cos (da / 2))) by ring.
+  replace (sin ((d2r D1 + d2r D2) / 2) * sin (da / 2) * (sin ((d2r D1 + d2r D2) / 2) * sin (da / 2)))
+    with ((sin ((d2r D1 + d2r D2) / 2) * sin ((d2r D1 + d2r D2) / 2)) * (sin (da / 2) * sin (da / 2))) by ring.
+  rewrite !cos2_half, !sin2_half. unfold dd. rewrite cos_d2r_red360.
+  replace (d2r (D1 + - D2)) with (d2r D1 - d2r D2) by (unfold d2r; ring).
+  rewrite cos_minus, cos_plus. field.
+Qed.
+
 Definition sep_deg (A1 D1 A2 D2 : R) : R :=
-  r2d (Rlit 20 (-1) * asin (sqrt (sep_h (d2r (red360 (D1 + - D2))) (d2r D1) (d2r D2)
-                                        (d2r (red360 (A1 + - A2)))))).
+  r2d (Rlit 20 (-1) *
+       atan2 (sqrt (sep_h (d2r (red360 (D1 + - D2))) (d2r D1) (d2r D2) (d2r (red360 (A1 + - A2)))))
+             (sqrt (sep_hc (d2r (red360 (D1 + - D2))) (d2r D1) (d2r D2) (d2r (red360 (A1 + - A2)))))).
 
 Lemma angsep_closed a1 d1 a2 d2 :
   -360 < a1 < 360 -> -360 < d1 < 360 -> -360 < a2 < 360 -> -360 < d2 < 360 ->
@@ -78,11 +107,33 @@ Lemma angsep_closed a1 d1 a2 d2 :
 Proof.
   intros Ha1 Hd1 Ha2 Hd2.
   pose proof (sep_h_range a1 d1 a2 d2) as Hh.
-  set (h := sep_h _ _ _ _) in Hh.
-  assert (Hs : -1 <= sqrt h <= 1).
-  { split. pose proof (sqrt_pos h); lra. rewrite <- sqrt_1. apply sqrt_le_1; lra. }
-  unfold h, sep_h, d2r in Hh, Hs.
-  crun. reflexivity.
+  unfold sep_h, d2r in Hh.
+  crun. rewrite red360_id; [reflexivity |].
+  match goal with |- context [atan2 ?z (sqrt ?w)] =>
+    pose proof (r2d_atan2_nonneg_range z (sqrt w) (sqrt_pos w)) as Hb end.
+  unfold r2d in Hb. Rlit_norm_all. lra.
+Qed.
+
+(* atan2 (sqrt h) (sqrt (1 - h)) = asin (sqrt h) *)
+Lemma atan2_sqrt_asin h : 0 <= h <= 1 -> atan2 (sqrt h) (sqrt (1 - h)) = asin (sqrt h).
+Proof.
+  intros Hh.
+  assert (Hs : 0 <= sqrt h <= 1).
+  { split. apply sqrt_pos. rewrite <- sqrt_1. apply sqrt_le_1; lra. }
+  pose proof (asin_bound (sqrt h)) as Hb. pose proof PI_RGT_0 as HPI.
+  assert (Hc : sqrt (1 - h) = cos (asin (sqrt h))).
+  { rewrite cos_asin by lra. f_equal. unfold Rsqr. rewrite sqrt_sqrt by lra. reflexivity. }
+  rewrite Hc. rewrite <- (sin_asin (sqrt h)) at 1 by lra.
+  rewrite <- (Rmult_1_l (sin (asin (sqrt h)))), <- (Rmult_1_l (cos (asin (sqrt h)))).
+  apply atan2_polar; lra.
+Qed.
+
+Lemma sep_deg_asin a1 d1 a2 d2 :
+  sep_deg a1 d1 a2 d2 =
+  r2d (2 * asin (sqrt (sep_h (d2r (red360 (d1 + - d2))) (d2r d1) (d2r d2) (d2r (red360 (a1 + - a2)))))).
+Proof.
+  unfold sep_deg. replace (Rlit 20 (-1)) with 2 by (Rlit_norm; lra).
+  rewrite sep_hc_value, atan2_sqrt_asin by apply sep_h_range. reflexivity.
 Qed.
 
 (* cos of the separation = dot product of the unit vectors; 0 <= separation <= 180 *)
@@ -94,7 +145,7 @@ Theorem angsep_cos a1 d1 a2 d2 :
 Proof.
   intros Ha1 Hd1 Ha2 Hd2. exists (sep_deg a1 d1 a2 d2). split; [now apply angsep_closed |].
   pose proof (sep_h_range a1 d1 a2 d2) as Hh.
-  unfold sep_deg. replace (Rlit 20 (-1)) with 2 by (Rlit_norm; lra). split.
+  rewrite sep_deg_asin. split.
   - rewrite d2r_r2d, cos_2asin_sqrt by assumption. rewrite sep_h_value, dot_uvec. field.
   - pose proof (range_2asin_sqrt _ Hh) as [R1 R2].
     apply r2d_le in R1, R2. rewrite r2d_PI in R2.
@@ -106,17 +157,46 @@ Theorem angsep_sym a1 d1 a2 d2 :
   f_angular_separation Rops (ang a1) (ang d1) (ang a2) (ang d2)
   = f_angular_separation Rops (ang a2) (ang d2) (ang a1) (ang d1).
 Proof.
-  intros Ha1 Hd1 Ha2 Hd2. rewrite !angsep_closed by assumption. unfold sep_deg.
+  intros Ha1 Hd1 Ha2 Hd2. rewrite !angsep_closed by assumption. rewrite !sep_deg_asin.
   rewrite !sep_h_value, dot_sym. reflexivity.
 Qed.
 
 (* ---- relative_position_angle ---- *)
-Definition pa_rad (da d1 d2 : R) : R := atan2 (sin da) (cos d2 * tan d1 - sin d2 * cos da).
+(* new, cancellation-free form: atan2 (cos d1 sin da) (sin dd + 2 sin d2 cos d1 sin^2 (da/2)) *)
+Definition pa_x (dd da d1 d2 : R) : R :=
+  sin dd + Rlit 20 (-1) * sin d2 * cos d1 * (sin (da / Rlit 20 (-1)) * sin (da / Rlit 20 (-1))).
+Definition pa_rad (dd da d1 d2 : R) : R := atan2 (cos d1 * sin da) (pa_x dd da d1 d2).
+(* the textbook quotient form *)
+Definition pa_old (da d1 d2 : R) : R := atan2 (sin da) (cos d2 * tan d1 - sin d2 * cos da).
 
-Lemma relpa_closed a1 d1 a2 d2 : -360 < a1 < 360 -> -360 < a2 < 360 ->
+Lemma relpa_closed a1 d1 a2 d2 :
+  -360 < a1 < 360 -> -360 < a2 < 360 -> -360 < d1 < 360 -> -360 < d2 < 360 ->
   f_relative_position_angle Rops (ang a1) (ang d1) (ang a2) (ang d2)
-  = ang (r2d (pa_rad (d2r (red360 (a1 + - a2))) (d2r d1) (d2r d2))).
-Proof. intros Ha1 Ha2. crun. reflexivity. Qed.
+  = ang (r2d (pa_rad (d2r (red360 (d1 + - d2))) (d2r (red360 (a1 + - a2))) (d2r d1) (d2r d2))).
+Proof. intros Ha1 Ha2 Hd1 Hd2. crun. reflexivity. Qed.
+
+(* x of the new form = cos d1 * (x of the quotient form) = u1 . north2 *)
+Lemma pa_x_value A1 D1 A2 D2 :
+  pa_x (d2r (red360 (D1 + - D2))) (d2r (red360 (A1 + - A2))) (d2r D1) (d2r D2)
+  = sin (d2r D1) * cos (d2r D2) - sin (d2r D2) * cos (d2r D1) * cos (d2r A1 - d2r A2).
+Proof.
+  unfold pa_x. replace (Rlit 20 (-1)) with 2 by (Rlit_norm; lra).
+  rewrite sin2_half, sin_d2r_red360, cos_d2r_red360.
+  replace (d2r (D1 + - D2)) with (d2r D1 - d2r D2) by (unfold d2r; ring).
+  replace (d2r (A1 + - A2)) with (d2r A1 - d2r A2) by (unfold d2r; ring).
+  rewrite sin_minus. field.
+Qed.
+
+(* the new form equals the quotient form of Meeus when cos d1 > 0 *)
+Theorem relpa_quotient_form a1 d1 a2 d2 : 0 < cos (d2r d1) ->
+  pa_rad (d2r (red360 (d1 + - d2))) (d2r (red360 (a1 + - a2))) (d2r d1) (d2r d2)
+  = pa_old (d2r a1 - d2r a2) (d2r d1) (d2r d2).
+Proof.
+  intros Hc. unfold pa_rad, pa_old. rewrite pa_x_value, sin_d2r_red360.
+  replace (d2r (a1 + - a2)) with (d2r a1 - d2r a2) by (unfold d2r; ring).
+  rewrite <- (atan2_scale (cos (d2r d1)) (sin (d2r a1 - d2r a2))) by assumption.
+  f_equal. unfold tan. field. lra.
+Qed.
 
 Lemma atan2_opp y x : y <> 0 -> atan2 (- y) x = - atan2 y x.
 Proof.
@@ -135,15 +215,17 @@ Proof.
 Qed.
 
 (* exchanging the two right ascensions (delta alpha -> - delta alpha) negates the angle *)
-Theorem relpa_antisym a1 d1 a2 d2 p : -360 < a1 < 360 -> -360 < a2 < 360 ->
-  sin (d2r a1 - d2r a2) <> 0 ->
+Theorem relpa_antisym a1 d1 a2 d2 p :
+  -360 < a1 < 360 -> -360 < a2 < 360 -> -360 < d1 < 360 -> -360 < d2 < 360 ->
+  cos (d2r d1) * sin (d2r a1 - d2r a2) <> 0 ->
   f_relative_position_angle Rops (ang a1) (ang d1) (ang a2) (ang d2) = ang p ->
   f_relative_position_angle Rops (ang a2) (ang d1) (ang a1) (ang d2) = ang (- p).
 Proof.
-  intros Ha1 Ha2 Hs H. rewrite relpa_closed in H by assumption. rewrite relpa_closed by assumption.
+  intros Ha1 Ha2 Hd1 Hd2 Hs H. rewrite relpa_closed in H by assumption. rewrite relpa_closed by assumption.
   injection H as <-. f_equal. rewrite <- r2d_opp. f_equal. unfold pa_rad.
-  rewrite !sin_d2r_red360, !cos_d2r_red360.
+  rewrite !pa_x_value, !sin_d2r_red360.
   replace (d2r (a2 + - a1)) with (- (d2r a1 - d2r a2)) by (unfold d2r; ring).
   replace (d2r (a1 + - a2)) with (d2r a1 - d2r a2) by (unfold d2r; ring).
-  rewrite sin_neg, cos_neg. now apply atan2_opp.
+  replace (d2r a2 - d2r a1) with (- (d2r a1 - d2r a2)) by ring.
+  rewrite sin_neg, cos_neg. rewrite <- atan2_opp by assumption. f_equal. ring.
 Qed.
